@@ -74,6 +74,50 @@ def handleFileSrc (hdr : List String) (body : List (List String)) : List String 
     | _, _, _ => ["model bad-case"]
   | _ => ["model bad-case"]
 
+/-- suite `indexsrc` (C15, file-source half): a file source with a block index provider given as a table.
+    Monitor on the implementation's own delivery: ascending, each block once; no indexed match is lost (for every
+    indexed bundle the source went through, the first stored block at or above each wanted number within [start, stop]
+    is delivered); once the index has ended every stored block of the bundles read is delivered again. -/
+def handleIndexSrc (hdr : List String) (body : List (List String)) : List String :=
+  match hdr with
+  | [_, "indexsrc", st, sp, bs] =>
+    match st.toNat?, sp.toNat?, bs.toNat? with
+    | some st, some sp, some bs =>
+      let bundles := parseBundles body
+      let table : List (Nat × Option (List Nat)) := body.filterMap (fun ws => match ws with
+        | ["prov", b, v] => b.toNat?.map (fun b => (b, if v == "nil" then none else if v == "empty" then some []
+            else some ((v.splitOn ",").filterMap String.toNat?)))
+        | _ => none)
+      let prov : Prov := fun b => (table.find? (·.1 == b)).map (·.2)
+      let wl : List Nat := (body.findSome? (fun ws => match ws with
+        | ["wl", v] => some (if v == "-" then [] else (v.splitOn ",").filterMap String.toNat?) | _ => none)).getD []
+      let cfg : Cfg := ⟨st, sp, bs, wl⟩
+      let (blks, e) := runWithIndex cfg bundles prov (table.length + 2)
+      let model := blks.map (fun b => s!"model blk {idTok b.id} {b.num} ppok") ++ ["model fsend " ++ endStr e]
+      let impl : List (Id × Nat) := body.filterMap (fun ws => match ws with
+        | ["impl", "blk", i, n, _] => n.toNat?.map (fun n => (tokId i, n)) | _ => none)
+      let nums := impl.map (·.2)
+      let asc := (nums.zip (nums.drop 1)).all (fun (p : Nat × Nat) => p.1 < p.2)
+      let m1 := if asc then [] else ["monitor C15 FAIL indexed-delivery-not-ascending-or-a-block-delivered-twice"]
+      -- bundles the source went through: from the start bundle to the bundle of the last delivered block
+      let lastNum := nums.foldl max 0
+      let startBase := lowBoundary st bs
+      let wanted : List Nat := table.flatMap (fun (b, r) =>
+        if b < startBase || b > lowBoundary lastNum bs then [] else
+        match r with
+        | some l => (l.filter (fun n => n ≥ b && n < b + bs && n ≥ st && (sp == 0 || n ≤ sp))).filterMap (fun n =>
+            ((findBundle bundles b).bind (fun bu => (bu.blocks.filter (fun x => x.num ≥ n && x.num ≥ b)).head?)).map (·.num))
+        | none => [])
+      -- only bundles before the end of the index count (the first base without an entry, from the start bundle up)
+      let idxEnd : Nat := (List.range (table.length + bundles.length + 2)).foldl (fun acc k =>
+        if acc.2 then acc else (if (prov (startBase + k * bs)).isSome then (startBase + (k + 1) * bs, false) else (startBase + k * bs, true)))
+        (startBase, false) |>.1
+      let missed := wanted.filter (fun n => n < idxEnd && n ≤ lastNum && !nums.contains n)
+      let m2 := if missed.isEmpty then [] else [s!"monitor C15 FAIL indexed-matching-block-not-delivered-by-the-file-source ({missed})"]
+      model ++ (m1 ++ m2).take 1
+    | _, _, _ => ["model bad-case"]
+  | _ => ["model bad-case"]
+
 /-- suite `faults`: one injected fault per run. The exact number of blocks delivered before the fault depends on
     how far the reader goroutines ran ahead, so the model yields an outcome *set*: a prefix of the fault-free
     sequence no longer than `bound`, ending with the fault's error class. When the implementation's outcome
